@@ -39,6 +39,12 @@ type ViolationRecord struct {
 	Decoded  any       `json:"decoded,omitempty"`
 	Shrunk   bool      `json:"shrunk"`
 	Degraded bool      `json:"degraded_schedule,omitempty"`
+	// Shard/Of identify the worker that found the violation; Prefix marks a violation that only reproduces after
+	// the earlier runs of that worker (it depends on process-wide state those runs left behind): the replay then
+	// re-executes run indexes Shard, Shard+Of, … up to Index in one process.
+	Shard  int  `json:"shard"`
+	Of     int  `json:"of"`
+	Prefix bool `json:"needs_earlier_runs_of_worker,omitempty"`
 	Execs    int       `json:"shrink_execs,omitempty"`
 	Note     string    `json:"note,omitempty"`
 }
@@ -294,13 +300,13 @@ func Worker(prop, tier string, seed int64, shard, of, runs int, arm string, dead
 				res.Viols = append(res.Viols, ViolationRecord{
 					Property: prop, Tier: tier, Seed: seed, Index: idx, Arm: arm,
 					Tape: tape, Blob: rc.Blob,
-					Viol: *rc.Viol, Decoded: rc.Decoded, Degraded: rc.Degraded,
+					Viol: *rc.Viol, Decoded: rc.Decoded, Degraded: rc.Degraded, Shard: shard, Of: of,
 				})
 				for _, o := range rc.Others {
 					res.ViolCount++
 					res.Viols = append(res.Viols, ViolationRecord{
 						Property: prop, Tier: tier, Seed: seed, Index: idx, Arm: arm,
-						Tape: o.Tape, Viol: o.Viol,
+						Tape: o.Tape, Viol: o.Viol, Shard: shard, Of: of,
 					})
 				}
 			}
@@ -339,6 +345,14 @@ func ReplayFile(path string) (*ViolationRecord, *RunCtx, error) {
 	}
 	StartMemoryWatchdog("replay of " + path)
 	rc := &RunCtx{Prop: vr.Property, Tier: vr.Tier, Seed: vr.Seed, Index: vr.Index, Arm: vr.Arm, T: ReplayTape(vr.Tape), ReplayBlob: vr.Blob}
+	if vr.Prefix && vr.Of > 0 {
+		// process-wide state: first everything the worker ran before, exactly as it ran it
+		for idx := vr.Shard; idx < vr.Index; idx += vr.Of {
+			prc := &RunCtx{Prop: vr.Property, Tier: vr.Tier, Seed: vr.Seed, Index: idx, Arm: vr.Arm, T: NewTape(vr.Seed, vr.Property, idx)}
+			execOne(e, rl, prc)
+		}
+		rc.T = NewTape(vr.Seed, vr.Property, vr.Index)
+	}
 	if vr.Viol.Class == "worker-crash" && len(vr.Tape) == 0 {
 		// the worker died inside this run: re-execute the run index itself
 		rc.T = NewTape(vr.Seed, vr.Property, vr.Index)
@@ -695,8 +709,9 @@ func RunCheck(o Options) int {
 			code = 2
 		}
 		reproduced := code == 1 && strings.Contains(string(ob), "REPRODUCED key="+final.Viol.Key)
-		if !reproduced && final.Viol.Class == "data-race" && code == 1 && strings.Contains(string(ob), "class=data-race") {
-			// a run with several races: which pair the detector reports first is its own business
+		if !reproduced && code == 1 && strings.Contains(string(ob), " class="+final.Viol.Class+"\n") {
+			// same class, other key: a run with several races (which pair the detector reports first is its own business),
+			// or a failure whose position depends on Go map order (encoder output)
 			reproduced = true
 		}
 		if v.Viol.Class == "worker-crash" {
@@ -709,6 +724,27 @@ func RunCheck(o Options) int {
 			final.Viol.Detail = truncate(string(ob), 3000)
 			nb, _ := json.MarshalIndent(&final, "", " ")
 			os.WriteFile(outPath, nb, 0o644)
+		} else if !reproduced && !final.Degraded && final.Of > 0 && final.Index >= final.Of {
+			// not reproducible on its own: does it depend on process-wide state left by the worker's earlier runs?
+			pv := v
+			pv.Prefix = true
+			pv.Note = "reproduces only after the earlier runs of its worker: the violation depends on process-wide state (e.g. a shared sentinel object) that an earlier run modified"
+			nb, _ := json.MarshalIndent(&pv, "", " ")
+			os.WriteFile(outPath, nb, 0o644)
+			cmd := exec.Command(bin, "replay", outPath)
+			cmd.Env = raceEnv(v.Arm)
+			ob2, rerr2 := cmd.CombinedOutput()
+			code2 := 0
+			if ee, ok := rerr2.(*exec.ExitError); ok {
+				code2 = ee.ExitCode()
+			}
+			if code2 == 1 && strings.Contains(string(ob2), " class="+pv.Viol.Class+"\n") {
+				final = pv
+				fmt.Printf("note: %s reproduces only together with the earlier runs of worker %d/%d\n", outPath, pv.Shard, pv.Of)
+			} else {
+				fmt.Fprintf(os.Stderr, "INFRASTRUCTURE: replay of %s did not reproduce (exit %d), neither alone nor after the worker's earlier runs\n%s\n", outPath, code, truncate(string(ob), 2000))
+				return 2
+			}
 		} else if !reproduced && final.Degraded {
 			// the violation was observed on the real code, but the run contained blocking the scheduler does not
 			// model, so its interleaving is not fully tape-decided: report it, marked as not exactly replayable
